@@ -57,6 +57,19 @@ FAULTS = {
     "generator_to_list": "g = ||\n  yield 1\n  throw 'in generator'\nq = g().to_list()",
     "operator_overload": "o = {@+: |rhs| throw 'in plus'}\nq = o + 1",
     "comparison_overload": "o = {@<: |rhs| throw 'in less'}\nq = o < 1",
+    "derived_not_equal": "o = {@==: |rhs| throw 'in equal'}\nq = o != 1",
+    "derived_greater_or_equal": "o = {@<: |rhs| throw 'in less'}\nq = o >= 1",
+    "derived_less_or_equal": "o = {@<: (|rhs| false), @==: |rhs| throw 'in equal'}\nq = o <= 1",
+    "derived_greater": "o = {@<: (|rhs| throw 'in less'), @==: |rhs| true}\nq = o > 1",
+    "negate_overload": "o = {@negate: || throw 'in negate'}\nq = -o",
+    "compound_overload": "o = {@+=: |rhs| throw 'in add assign'}\no += 1",
+    "rhs_overload": "o = {@r+: |lhs| throw 'in radd'}\nq = 1 + o",
+    "unimplemented_then_rhs": "a = {@+: |rhs| throw koto.unimplemented}\nb = {@r+: |lhs| throw 'in radd'}\nq = a + b",
+    "access_overload": "o = {@access: |k| throw 'in access'}\nq = o.foo",
+    "access_assign_overload": "o = {@access_assign: |k, v| throw 'in access assign'}\no.foo = 1",
+    "index_assign_overload": "o = {@index_assign: |i, v| throw 'in index assign'}\no[0] = 1",
+    "size_overload": "o = {@size: || throw 'in size'}\nq = size o",
+    "iterator_overload": "o = {@iterator: || throw 'in iterator'}\nfor y in o\n  null",
     "display_print": "o = {@display: || throw 'in display'}\nprint o",
     "display_interp": "o = {@display: || throw 'in display'}\nq = 'a{o}b'",
     "list_construction": "q = [1, [2, 3], f_fail(2), 4]",
